@@ -2346,6 +2346,7 @@ class Planner:
         res["kinds"] = {str(s_): ("form" if isinstance(self.obj(s_), BaseForm) else "expr") for s_ in pool}
         res["mesh_ops"] = [i for i, op in enumerate(self.ops) if op[0] == "call" and op[2] == "ufl.Mesh" and len(op) == 4]
         res["watch"] = [w for w in self.watch if w in pool]
+        res["dicts"] = [d for d in self.dicts if d in self.node.slots]
         return res
 
     def flat_form(self, M):
